@@ -40,6 +40,8 @@ type E7Spec struct {
 	EdgeClosure   []EdgeClosureSpec  `json:"edge_closure"`
 	NilableGlobal []FuncRuleSpec     `json:"nilable_globals"`
 	TrimCutset    []FuncRuleSpec     `json:"trim_cutset"`
+	DecodeGlobal  []FuncRuleSpec     `json:"decode_into_global"`
+	ReturnGlobal  []FuncRuleSpec     `json:"return_global_address"`
 }
 
 type FuncRuleSpec struct {
@@ -150,6 +152,12 @@ func runE7(p *Program, sp *Spec, c *Collector) {
 	}
 	for _, tc := range t.TrimCutset {
 		runTrimCutset(p, c, tc)
+	}
+	for _, dg := range t.DecodeGlobal {
+		runDecodeGlobal(p, c, dg)
+	}
+	for _, rg := range t.ReturnGlobal {
+		runReturnGlobal(p, c, rg)
 	}
 	for _, n := range t.NoExit {
 		runNoExit(p, sp, c, n)
@@ -2380,5 +2388,78 @@ func runTrimCutset(p *Program, c *Collector, a FuncRuleSpec) {
 	}
 	if n == 0 {
 		c.Ob(a.Props, "E7.trim-cutset", "trimcutset:"+strings.Join(a.Funcs, ","), Discharged, a.What+": no cutset trimming in these functions", "", true)
+	}
+}
+
+
+// ---------------------------------------------------------------------------------------------
+// decoding into a package-level variable: encoding/json fills existing slice elements and map entries in place, so
+// json.Unmarshal(data, &G) on a variable that still holds the previous model merges the two (a field the new file omits
+// keeps its old value). The variable must be cleared on every path before the call.
+
+func runDecodeGlobal(p *Program, c *Collector, a FuncRuleSpec) {
+	n := 0
+	for _, fn := range expandFuncs(p, c, a.Funcs, a.Props...) {
+		for _, b := range fn.Blocks {
+			for _, in := range b.Instrs {
+				call, ok := in.(*ssa.Call)
+				if !ok || call.Call.StaticCallee() == nil || fullFuncName(call.Call.StaticCallee()) != "encoding/json.Unmarshal" || len(call.Call.Args) != 2 {
+					continue
+				}
+				target := call.Call.Args[1]
+				if mi, ok := target.(*ssa.MakeInterface); ok {
+					target = mi.X
+				}
+				g, isG := target.(*ssa.Global)
+				if !isG || g.Pkg == nil || !p.Own[g.Pkg.Pkg] {
+					continue
+				}
+				n++
+				key := fmt.Sprintf("decodeglobal:%s into %s", p.FuncKey(fn), p.GlobalKey(g))
+				cleared := false
+				for _, b2 := range fn.Blocks {
+					for _, in2 := range b2.Instrs {
+						if st, ok := in2.(*ssa.Store); ok && st.Addr == ssa.Value(g) && isNilConst(st.Val) && instrDominates(st, call) {
+							cleared = true
+						}
+					}
+				}
+				if cleared {
+					c.Ob(a.Props, "E7.decode-into-global", key, Discharged, "the variable is set to nil before the decoder fills it", p.InstrPos(call), true)
+				} else {
+					c.Ob(a.Props, "E7.decode-into-global", key, Violated, a.What+": json.Unmarshal decodes into "+g.Name()+" without clearing it first: what a previous command of the same process left there is merged into the new model (omitted fields keep their old values)", p.InstrPos(call), false)
+				}
+			}
+		}
+	}
+	if n == 0 {
+		c.Ob(a.Props, "E7.decode-into-global", "decodeglobal:"+strings.Join(a.Funcs, ","), Discharged, a.What+": nothing is decoded into a package-level variable", "", true)
+	}
+}
+
+// returning the address of a package-level variable: the caller's result is overwritten by the next activation.
+func runReturnGlobal(p *Program, c *Collector, a FuncRuleSpec) {
+	n := 0
+	for _, fn := range expandFuncs(p, c, a.Funcs, a.Props...) {
+		for _, b := range fn.Blocks {
+			for _, in := range b.Instrs {
+				ret, ok := in.(*ssa.Return)
+				if !ok {
+					continue
+				}
+				for _, r := range ret.Results {
+					g, isG := r.(*ssa.Global)
+					if !isG || g.Pkg == nil || !p.Own[g.Pkg.Pkg] || !getStateAn(p).mutable[g] {
+						continue
+					}
+					n++
+					c.Ob(a.Props, "E7.return-global-address", fmt.Sprintf("returnglobal:%s &%s", p.FuncKey(fn), g.Name()), Violated,
+						a.What+": the result is the address of the package-level variable "+g.Name()+", which the next call of "+shortFn(p.FuncKey(fn))+" reassigns: the first caller's result changes under its feet", p.InstrPos(ret), false)
+				}
+			}
+		}
+	}
+	if n == 0 {
+		c.Ob(a.Props, "E7.return-global-address", "returnglobal:"+strings.Join(a.Funcs, ","), Discharged, a.What+": no result is the address of a package-level variable", "", true)
 	}
 }
